@@ -16,8 +16,8 @@ func init() {
 		Rule:       "one run = a seeded world with a positive fitness landscape turned over for 1..N epochs; every epoch is observed before the turnover (raw fitness, membership, ages), at the 'epoch.prepared' observation point (adjusted fitness, expected offspring, quotas after stealing / delta coding, parents left after culling) and at the first speciation (number of babies); the apportionment oracle recomputes expectations, the carried-floor prefix sums, the total and the parent cut-off. A case is one epoch; non-trivial when it had >= 2 species; distinct by (species count, quota vector hash, rare-path flags)",
 		RealParts:  []string{"Species.adjustFitness / countOffspring, Population.purgeZeroOffspringSpecies / giveBabiesToTheBest / deltaCoding / purgeOrganisms, both epoch executors"},
 		StubParts:  []string{"fitness assignment (seeded landscape with at least one positive value)", "goroutine choice in parallel worlds"},
-		Assumes:    []string{"the age adjustment is only constrained to be one uniform positive factor per species (1 or the age-significance option for species too young to be stagnant); penalty constants are not mirrored", "1e-9 relative tolerance; where a cumulative expectation lies within 1e-6 of an integer either rounding is accepted"},
-		ProbeNames: []string{"probe.multi_species_epoch", "probe.options_changed_between_epochs", "probe.makeup_offspring", "probe.delta_coding", "probe.stolen_babies", "probe.zero_quota_species", "probe.stagnant_species_penalised", "probe.young_species_boost", "probe.culling_removed_parents"},
+		Assumes:    []string{"the age adjustment is constrained to be one uniform positive factor per species, decided by the species history at the start of the epoch: 1 or the age-significance option when the last improvement is more than two generations short of the drop-off age, below half of that when it is two or more generations past it; penalty constants and the exact boundary are not mirrored", "1e-9 relative tolerance; where a cumulative expectation lies within 1e-6 of an integer either rounding is accepted"},
+		ProbeNames: []string{"probe.multi_species_epoch", "probe.options_changed_between_epochs", "probe.makeup_offspring", "probe.delta_coding", "probe.stolen_babies", "probe.zero_quota_species", "probe.stagnant_species_penalised", "probe.long_stagnant_species", "probe.species_scoring_zero", "probe.young_species_boost", "probe.culling_removed_parents"},
 	})
 	Register(&Scenario{
 		Prop: "C10", Run: scenarioC10, QuickRuns: 4800, ThoroughRuns: 120000, Level: "exploration",
@@ -78,6 +78,7 @@ func checkQuotas(c *RunCtx, w *World, snap *EpochSnap) {
 			}
 		}
 		if math.IsNaN(factor) {
+			c.Count("probe.species_scoring_zero")
 			continue
 		}
 		if ss.Age+1 < w.Opts.DropOffAge {
@@ -94,6 +95,20 @@ func checkQuotas(c *RunCtx, w *World, snap *EpochSnap) {
 			}
 			if factor < 0.5 {
 				c.Count("probe.stagnant_species_penalised")
+			}
+			// The age adjustment is a function of the species' history as it stood when the epoch began, not of the
+			// fitness values being adjusted. A margin of two generations on either side of the drop-off age leaves
+			// room for every reading of "has not improved for drop-off-age generations".
+			since := ss.Age - ss.AgeOfLastImprovement
+			if since >= w.Opts.DropOffAge+2 {
+				c.Count("probe.long_stagnant_species")
+				if factor >= 0.5*math.Max(1, A) {
+					c.Fail("stagnation-penalty", "%s: species %d (age %d) had not improved for %d generations when the epoch began, the drop-off age is %d, yet its fitness was not penalised (adjusted = raw * %.12g / size)", where, ss.Id, ss.Age, since, w.Opts.DropOffAge, factor)
+				}
+			} else if since+2 < w.Opts.DropOffAge {
+				if !closeRel(factor, 1) && !closeRel(factor, A) {
+					c.Fail("stagnation-penalty", "%s: species %d (age %d) improved %d generations ago, the drop-off age is %d, yet adjusted fitness = raw * %.12g / size; expected factor 1 or the age significance %.6g", where, ss.Id, ss.Age, since, w.Opts.DropOffAge, factor, A)
+				}
 			}
 		}
 	}
@@ -249,7 +264,7 @@ func scenarioC09(c *RunCtx) {
 		Prof:         OptProfile{MinPop: 3, MaxPop: maxPop, Parallel: 2, Structural: t.Pick("structural", 1, 1), ManySpecies: t.Chance("manySpecies", 2, 3), AllowStolen: true, SmallDropOff: t.Chance("smallDropOff", 2, 3)},
 		Genome:       GenomeSpec{AllowDisabled: true, MaxHidden: 2},
 		AllowShipped: true,
-		Landscapes:   PositiveLands,
+		Landscapes:   append([]int{LandSpeciesZero, LandSpeciesZero}, PositiveLands...),
 	}
 	var w *World
 	c.LibSoft("construct", func() { w = NewWorld(t, spec) })
